@@ -48,6 +48,9 @@ type GN struct {
 	Tags   []string
 	MM     map[string]map[string]int // maps as map values: the same inner map may sit under two keys
 	ME     map[string]GEdge          // structs (holding a map and a pointer) as map values
+	// exported but invisible to sources: still part of the config, so copied like any other reference
+	Aside    *GN            `dials:"-"`
+	AsideMap map[string]int `dials:"-"`
 }
 
 type GCfg struct {
@@ -57,6 +60,7 @@ type GCfg struct {
 	Idx   map[string]*GN
 	Nums  []int
 	Val   GN
+	Spare *GN `dials:"-"`
 }
 
 // node family accepted by Pointerify (no pointer-recursive struct type, no interface value cycles)
@@ -75,6 +79,8 @@ type PN struct {
 	Shared map[string]int
 	Tags   []string
 	MM     map[string]map[string]int
+	Back   []*PN          `dials:"-"` // default-only references: no source can set them, the config still owns a copy
+	Local  map[string]int `dials:"-"`
 }
 
 type PCfg struct {
@@ -83,6 +89,7 @@ type PCfg struct {
 	Pair  [2]*PN
 	Nums  []int
 	Share map[string]int
+	Spare map[string]*PN `dials:"-"`
 }
 
 // ---------- graph encoding (Go value -> model heap) and canonical rendering ----------
@@ -463,6 +470,12 @@ func genGraph(r *RNG) *GCfg {
 			nd.priv = pick()
 		}
 		if r.Chance(25) {
+			nd.Aside = pick()
+		}
+		if r.Chance(20) {
+			nd.AsideMap = shared[r.Intn(len(shared))]
+		}
+		if r.Chance(25) {
 			nd.Tags = []string{"t", fmt.Sprint(i)}[:1+r.Intn(2)]
 		}
 	}
@@ -494,6 +507,9 @@ func genGraph(r *RNG) *GCfg {
 	}
 	if r.Chance(30) {
 		cfg.Val = *nodes[r.Intn(n)]
+	}
+	if r.Chance(40) {
+		cfg.Spare = nodes[r.Intn(n)]
 	}
 	return cfg
 }
@@ -548,6 +564,12 @@ func genPGraph(r *RNG) *PCfg {
 		if r.Chance(20) {
 			nd.Tags = []string{"t"}
 		}
+		if r.Chance(25) {
+			nd.Back = []*PN{pick(), nd}[:1+r.Intn(2)]
+		}
+		if r.Chance(20) {
+			nd.Local = sh
+		}
 	}
 	shM["s"] = pick()
 	cfg := &PCfg{Kids: append([]*PN(nil), nodes[:1+r.Intn(n)]...)}
@@ -562,6 +584,12 @@ func genPGraph(r *RNG) *PCfg {
 	}
 	if r.Chance(50) {
 		cfg.Share = sh
+	}
+	if r.Chance(40) {
+		cfg.Spare = shM
+		if r.Chance(50) {
+			cfg.Spare = map[string]*PN{"first": nodes[0], "any": pick()}
+		}
 	}
 	return cfg
 }
